@@ -417,6 +417,8 @@ func (i *interpreter) startPath(w workItem) {
 	i.builders = nil
 	i.panicStack = nil
 	i.tainted = false
+	i.vcwd = ""
+	i.egErr = nil
 }
 
 func (i *interpreter) choiceMap() map[string]int {
